@@ -6,25 +6,10 @@ verus! {
 //@include specs/prelude.rs
 //@include specs/json_number.rs
 
-#[derive(Debug)]
-pub struct Error { pub code: ErrorCode }
-
-// `as_str` is `from_utf8_unchecked` (unsafe, outside Verus): assumed to return a view of the same bytes.
-pub uninterp spec fn str_bytes(s: &str) -> Seq<u8>;
-#[verifier::external_body]
-pub fn as_str(data: &[u8]) -> (r: &str)
-    ensures str_bytes(r) == data@,
-{ unimplemented!() }
-
-pub struct Parser<R> { pub read: R }
-
-//@extract file=src/parser.rs macro=perr
+//@include specs/json_grammar.rs
+//@include units/frag_parser.vt.rs
 
 impl<'de, R: Reader<'de>> Parser<R> {
-    // Parser::error is verified in unit `errors`; here only its totality is used.
-    #[verifier::external_body]
-    pub fn error(&self, reason: ErrorCode) -> (e: Error) { Error { code: reason } }
-
 //@include units/frag_number.vt.rs
 }
 
